@@ -6,6 +6,7 @@ import ExprModel.Proofs.CompileLocs
 import ExprModel.Props.C01
 import ExprModel.Proofs.StepBoundary
 import ExprModel.Walk.Spec
+import ExprModel.Proofs.RefineBlame
 /-
 C13, end to end: the layers of Props/C13.lean (source / snippet / bind, location facts, location map)
 composed with the lexer (C12), parser (C11) and compiler / VM (C01) models.
@@ -245,17 +246,188 @@ example :
        ((run c (Refine.progOf cp) 50).2.pp == 6) && (report (locTable 0 cp.code) 6 == (⟨1, 2⟩ : Loc))
      | .error _ => false) = true := by decide
 
-/-- what remains (`_goal`): the sharper statement that the reported location is that of the *innermost
-    failing node* — a sub-node `m` whose own evaluation by the language definition fails with the same
-    error class.  It needs the simulation of C01 (`Sim`) to carry the byte range of each node's code
-    through its error case ("the failing step's `pp` lies inside the fragment of the innermost failing
-    node").  Until then this is what the single-failure oracle of harness/c13_oracle.go checks on the
-    real code (16 run-time fault kinds, exact token expected). -/
+/-- the sharper statement at full strength: the reported location is that of the *innermost failing node* —
+    a sub-node `m` whose own evaluation by the language definition fails with the same error class.
+    Proved below (`runtime_error_innermost_partial`) under the hypotheses of C01's refinement theorem, without
+    which the run of a compiled program is not tied to the language definition at all (a tree with a pair
+    node outside a map literal, `+0.0` and `-0.0` constants sharing a pool slot, a collection of 2^63 elements). -/
 def runtime_error_innermost_goal : Prop :=
   ∀ (cfg : CompCfg) (n : Node) (cp : Compiled) (c : Cfg), compileProgram cfg n = .ok cp → cfg.cast = none →
     Refine.FitsU16 cp.code →
     ∀ (fuel : Nat) (e : ErrClass) (s' : VM), run c (Refine.progOf cp) fuel = (.error e, s') → e ≠ .fuel →
       ∃ m ∈ Node.preorder n, m.loc = report (locTable 0 cp.code) s'.pp ∧
         ∃ ctx σ, (Spec.eval (Refine.specOf c) ctx m σ).1 = .error e
+
+open ExprModel.Refine in
+/-- **`runtime_error_innermost_partial`: the reported location is the location of the innermost failing node.**
+    Whenever a run of a compiled program fails with class `e` (anything but the model's `fuel`), the location the
+    VM reports — `Locations[pp]` of the failing step — is the location of a node `m` of the tree whose *own*
+    evaluation by the language definition (`Spec.eval`, in the closure context and state it is reached in) fails
+    with `e`.  This is C01's simulation with its failure direction carrying the blame: the failing instruction
+    is always one that `m` emitted for itself, under `m`'s location, at a moment when `m`'s operands have been
+    evaluated and `m`'s own operation fails (`ReachErr`, `BlameOK`).  It holds for every construct, the slice
+    included (its bounds are emitted `to` before `from`, but each bound's instructions carry the bound's own
+    locations and `OpSlice` carries the slice's) and the seven loop builtins (whose loop instructions all carry
+    the builtin's location and fail only when the builtin's own evaluation does).
+    Hypotheses: those of `C01.run_conforms_partial` (`AliasFree`/`FloatsIn`, `FitsU16`, `EnvOK`, `Good`), and no
+    `AsInt64`/`AsFloat64` epilogue (its `OpCast` carries the location 0:0 of no node). -/
+theorem runtime_error_innermost_partial (cfg : CompCfg) (n : Node) (cp : Compiled) (c : Cfg) (F : Val → Prop)
+    (hc : compileProgram cfg n = .ok cp) (hcast : cfg.cast = none) (hfit : FitsU16 cp.code)
+    (hF : AliasFree F) (hfl : FloatsIn F n) (henv : EnvOK c cfg) (hg : Good (SmallColl c) n)
+    (fuel : Nat) (e : ErrClass) (s' : VM) (hrun : run c (progOf cp) fuel = (.error e, s')) (he : e ≠ .fuel) :
+    ∃ m ∈ Node.preorder n, m.loc = report (locTable 0 cp.code) s'.pp ∧
+      ∃ ctx σ, (Spec.eval (specOf c) ctx m σ).1 = .error e := by
+  have hR := program_runs (InnerBlame c n) hc hF hfl hg hfit henv (loopCase_holds c _)
+    (allBlame_inner c (lprogOf cp (InnerBlame c n)) n rfl) (fun t _ _ ht => by rw [hcast] at ht; cases ht)
+  unfold run runOn at hrun
+  rw [prologue_fresh] at hrun
+  obtain ⟨s1, hst, hlt, hstep⟩ := loop_error fuel _ e s' hrun he
+  have hsz : (progOf cp).code.size = lsize cp.code := by
+    simp [progOf, Compiled.bytes, encodeAll_length, lsize]
+  unfold progOutcome at hR
+  cases hsr : Spec.run (specOf c) cfg.cast n with
+  | mk r σ' =>
+  rw [hsr] at hR
+  cases r with
+  | ok v =>
+    obtain ⟨t, ht, htt⟩ : Reach c (lprogOf cp (InnerBlame c n)) _ _ := by simpa using hR
+    have hip : t.ip = lsize cp.code := congrArg VM.ip htt
+    exact (steps_fail_not_halted hst hlt hstep ht (by rw [hip, hsz]; exact Nat.le_refl _)).elim
+  | error e' =>
+    obtain ⟨s1', s2', hst', hlt', hstep', _, i, r, hat, hbl⟩ : ReachErr c (lprogOf cp (InnerBlame c n)) _ e' σ' := by
+      simpa using hR
+    have h1 : s1 = s1' := steps_fail_unique hst hstep hst' hstep'
+    subst h1
+    have h2 : e = e' := by
+      have := hstep.symm.trans hstep'
+      simp only [Except.error.injEq, Prod.mk.injEq] at this
+      exact this.1
+    subst h2
+    obtain ⟨m, hm, hml, hctx⟩ := hbl
+    obtain ⟨pre, post, hfull, hpre, _⟩ := hat
+    have hfull' : cp.code = pre ++ i :: (r ++ post) := by
+      have : cp.code = pre ++ (i :: r) ++ post := hfull
+      simpa [List.append_assoc] using this
+    have hloc : report (locTable 0 cp.code) s1.ip = i.loc := by
+      apply report_locTable
+      rw [hfull', ← hpre]
+      exact locTable_at
+    refine ⟨m, hm, ?_, hctx⟩
+    rw [failing_step_pp hstep, hloc, hml]
+
+/-- non-vacuity, and the rule at work on a nested failure: in `[1, 2][I] + 1` with `I = 5` the index
+    fails, and the location reported is that of the index node (1:6), not of the `+` (1:10) -/
+example :
+    let w : World := { call := fun _ _ => .ok .nil, regexMatch := fun _ _ => none, pow := fun a _ => a }
+    let c : Cfg := { world := w, env := .map [("I", .int .int 5)], budget := 1000, defects := Defects.none }
+    let tree : Node := .binary ⟨⟨1, 10⟩, .invalid⟩ "+"
+      (.index ⟨⟨1, 6⟩, .invalid⟩ (.array ⟨⟨1, 0⟩, .invalid⟩ [.int ⟨⟨1, 1⟩, .invalid⟩ 1, .int ⟨⟨1, 4⟩, .invalid⟩ 2])
+        (.ident ⟨⟨1, 7⟩, .invalid⟩ "I" false))
+      (.int ⟨⟨1, 12⟩, .invalid⟩ 1)
+    (match compileProgram {} tree with
+     | .ok cp =>
+       (match (run c (Refine.progOf cp) 50).1 with | .error .index => true | _ => false) &&
+       (report (locTable 0 cp.code) (run c (Refine.progOf cp) 50).2.pp == (⟨1, 6⟩ : Loc))
+     | .error _ => false) = true := by decide
+
+/-- … and the theorem applied to that run: its hypotheses are satisfiable on a failing program -/
+def innermostTree : Node := .binary ⟨⟨1, 10⟩, .invalid⟩ "+"
+  (.index ⟨⟨1, 6⟩, .invalid⟩ (.array ⟨⟨1, 0⟩, .invalid⟩ [.int ⟨⟨1, 1⟩, .invalid⟩ 1, .int ⟨⟨1, 4⟩, .invalid⟩ 2])
+    (.ident ⟨⟨1, 7⟩, .invalid⟩ "I" false))
+  (.int ⟨⟨1, 12⟩, .invalid⟩ 1)
+
+def innermostCompiled : Compiled :=
+  match compileProgram {} innermostTree with
+  | .ok cp => cp
+  | .error _ => default
+
+def innermostCfg : Cfg :=
+  { world := { call := fun _ _ => .ok .nil, regexMatch := fun _ _ => none, pow := fun a _ => a },
+    env := .map [("I", .int .int 5)], budget := 1000, defects := Defects.none }
+
+open ExprModel.Refine in
+set_option maxRecDepth 20000 in
+example : ∃ m ∈ Node.preorder innermostTree,
+    m.loc = report (locTable 0 innermostCompiled.code) (run innermostCfg (progOf innermostCompiled) 50).2.pp ∧
+    ∃ ctx σ, (Spec.eval (specOf innermostCfg) ctx m σ).1 = .error .index := by
+  have hc : compileProgram {} innermostTree = .ok innermostCompiled := by unfold innermostCompiled; rfl
+  have hfit : FitsU16 innermostCompiled.code := by decide
+  have hfl : FloatsIn (fun _ => False) innermostTree := by
+    refine ⟨⟨⟨?_, ?_, trivial⟩, trivial⟩, ?_⟩ <;> (intro h; exact absurd h (by decide))
+  have hg : Good (SmallColl innermostCfg) innermostTree := ⟨⟨⟨trivial, trivial, trivial⟩, trivial⟩, trivial⟩
+  have hrun : run innermostCfg (progOf innermostCompiled) 50 =
+      (.error .index, (run innermostCfg (progOf innermostCompiled) 50).2) := by
+    have h1 : (match (run innermostCfg (progOf innermostCompiled) 50).1 with
+        | .error .index => true | _ => false) = true := by decide
+    have : (run innermostCfg (progOf innermostCompiled) 50).1 = .error .index := by
+      revert h1
+      cases (run innermostCfg (progOf innermostCompiled) 50).1 with
+      | ok v => intro h; cases h
+      | error e => cases e <;> intro h <;> first | rfl | cases h
+    rw [← this]
+  exact runtime_error_innermost_partial {} innermostTree innermostCompiled innermostCfg (fun _ => False) hc rfl hfit
+    (fun _ _ h => h.elim) hfl (fun h => by cases h) hg 50 .index _ hrun (by decide)
+
+/-- the same with the computable check of the float constants (`C01.run_conforms_checked`'s hypotheses) -/
+theorem runtime_error_innermost_checked (cfg : CompCfg) (n : Node) (cp : Compiled) (c : Cfg)
+    (hc : compileProgram cfg n = .ok cp) (hcast : cfg.cast = none) (hfit : Refine.FitsU16 cp.code)
+    (hfl : Refine.floatsOK n = true) (henv : Refine.EnvOK c cfg) (hg : Refine.Good (Refine.SmallColl c) n)
+    (fuel : Nat) (e : ErrClass) (s' : VM) (hrun : run c (Refine.progOf cp) fuel = (.error e, s')) (he : e ≠ .fuel) :
+    ∃ m ∈ Node.preorder n, m.loc = report (locTable 0 cp.code) s'.pp ∧
+      ∃ ctx σ, (Spec.eval (Refine.specOf c) ctx m σ).1 = .error e :=
+  runtime_error_innermost_partial cfg n cp c _ hc hcast hfit (Refine.floatsOK_spec hfl).1 (Refine.floatsOK_spec hfl).2
+    henv hg fuel e s' hrun he
+
+/-! #### why the hypotheses: the goal without them fails on an ill-formed tree
+
+`-(1: "a")` — a pair node outside a map literal (the parser never builds one): the compiler emits both
+components and `OpNegate`, the run fails with a *type* error at the `-`; the language definition rejects
+the pair itself (`badop`), so no node at that location fails with a type error. -/
+
+def illFormedTree : Node :=
+  .unary ⟨⟨1, 0⟩, .invalid⟩ "-" (.pair ⟨⟨1, 2⟩, .invalid⟩ (.int ⟨⟨1, 3⟩, .invalid⟩ 1) (.str ⟨⟨1, 5⟩, .invalid⟩ "a"))
+
+def illFormedCompiled : Compiled :=
+  match compileProgram {} illFormedTree with
+  | .ok cp => cp
+  | .error _ => default
+
+open ExprModel.Refine ExprModel.Spec in
+set_option maxRecDepth 20000 in
+theorem runtime_error_innermost_goal_witness : ¬ runtime_error_innermost_goal := by
+  intro h
+  have hc : compileProgram {} illFormedTree = .ok illFormedCompiled := by unfold illFormedCompiled; rfl
+  have hfit : FitsU16 illFormedCompiled.code := by decide
+  have h1 : (match (run innermostCfg (progOf illFormedCompiled) 50).1 with
+      | .error .type_ => true | _ => false) = true := by decide
+  have hres : (run innermostCfg (progOf illFormedCompiled) 50).1 = .error .type_ := by
+    revert h1
+    cases (run innermostCfg (progOf illFormedCompiled) 50).1 with
+    | ok v => intro h; cases h
+    | error e => cases e <;> intro h <;> first | rfl | cases h
+  have hrun : run innermostCfg (progOf illFormedCompiled) 50 =
+      (.error .type_, (run innermostCfg (progOf illFormedCompiled) 50).2) := by rw [← hres]
+  have hloc : report (locTable 0 illFormedCompiled.code) (run innermostCfg (progOf illFormedCompiled) 50).2.pp
+      = (⟨1, 0⟩ : Loc) := by decide
+  obtain ⟨m, hm, hml, ctx, σ, hev⟩ := h {} illFormedTree illFormedCompiled innermostCfg hc rfl hfit 50 .type_ _ hrun
+    (by decide)
+  rw [hloc] at hml
+  have hpre : Node.preorder illFormedTree = [illFormedTree,
+      .pair ⟨⟨1, 2⟩, .invalid⟩ (.int ⟨⟨1, 3⟩, .invalid⟩ 1) (.str ⟨⟨1, 5⟩, .invalid⟩ "a"),
+      .int ⟨⟨1, 3⟩, .invalid⟩ 1, .str ⟨⟨1, 5⟩, .invalid⟩ "a"] := rfl
+  rw [hpre] at hm
+  simp only [List.mem_cons, List.not_mem_nil, or_false] at hm
+  rcases hm with rfl | rfl | rfl | rfl
+  · -- the unary node: its operand is rejected by the language definition (`badop`), whatever the context
+    have : ∀ ctx σ, (eval (specOf innermostCfg) ctx illFormedTree σ).1 = .error .badop := by
+      intro ctx σ
+      unfold illFormedTree
+      rw [eval_unary, SM.bind_apply]
+      rfl
+    rw [this] at hev
+    cases hev
+  · exact absurd hml (by decide)
+  · exact absurd hml (by decide)
+  · exact absurd hml (by decide)
 
 end ExprModel.C13
